@@ -71,9 +71,11 @@ class Probe:
         self.R, self.t = spgref.operations(sg)
         self.ok = False
         cell = gc.cellpar_to_cell(*spgref.lattice_cellpar(sg, raw))
-        pts = np.vstack([spgref.orbit(self.R, self.t, np.array(a)) for a in anchors[:3]])
-        n = len(pts) // 3
-        ds = spglib.get_symmetry_dataset((cell, pts, [1] * n + [2] * n + [3] * n), symprec=1e-4)
+        orbs = [spgref.orbit(self.R, self.t, np.array(a)) for a in anchors[:3]]
+        pts = np.vstack(orbs)
+        # (an anchor that happens to sit on a special position has a shorter orbit: the species list follows the actual sizes)
+        nums = [z for z, o in zip((1, 2, 3), orbs) for _ in range(len(o))]
+        ds = spglib.get_symmetry_dataset((cell, pts, nums), symprec=1e-4)
         if ds is None or ds.number != sg:
             return
         self.cell = np.array(ds.std_lattice)
